@@ -25,6 +25,12 @@ pub use filter::{
 };
 pub use recv::UnrecognizedFrame;
 
+#[cfg(feature = "verif-hooks")]
+pub mod verif_reexports {
+    pub(crate) use super::filter::Filter;
+    pub use super::filter::rate_limiter::{LimitKind, Limiter, Quota, RateLimitedErr};
+}
+
 /// Configuration for the sockets to listen on.
 ///
 /// Default implementation is the UNSPECIFIED ipv4 address with port 9000.
@@ -97,6 +103,10 @@ impl Socket {
     /// If this struct is dropped, the send/recv tasks will shutdown.
     /// This needs to be run inside of a tokio executor.
     pub(crate) async fn new(config: SocketConfig) -> Result<Self, Error> {
+        #[cfg(feature = "verif-hooks")]
+        if crate::verif::virtual_socket_armed() {
+            return Self::new_virtual(config).await;
+        }
         let SocketConfig {
             executor,
             filter_config,
@@ -165,6 +175,58 @@ impl Socket {
         let (recv, recv_exit) = RecvHandler::spawn(recv_config);
         // spawn the sender handler
         let (send, sender_exit) = SendHandler::spawn(executor, send_ipv4, send_ipv6);
+
+        Ok(Socket {
+            send,
+            recv,
+            sender_exit: Some(sender_exit),
+            recv_exit: Some(recv_exit),
+        })
+    }
+}
+
+#[cfg(feature = "verif-hooks")]
+impl Socket {
+    /// A socket without the network: outbound packets end in the harness, inbound bytes are fed by
+    /// the harness through the real `RecvHandler::handle_inbound`.
+    async fn new_virtual(config: SocketConfig) -> Result<Self, Error> {
+        let SocketConfig {
+            executor: _,
+            filter_config,
+            listen_config: _,
+            ban_duration,
+            expected_responses,
+            local_node_id,
+            protocol_identity,
+        } = config;
+
+        let (send, outbound) = mpsc::channel(30);
+        let (recv_tx, recv) = mpsc::channel(30);
+        let (sender_exit, sender_exit_rx) = oneshot::channel();
+        let (recv_exit, recv_exit_rx) = oneshot::channel();
+        let (_unused_exit_tx, unused_exit_rx) = oneshot::channel();
+
+        // The struct needs a socket; it is never read from.
+        let dummy = Arc::new(UdpSocket::bind((Ipv4Addr::LOCALHOST, 0)).await?);
+
+        let recv_handler = RecvHandler::new_virtual(
+            dummy,
+            filter_config,
+            ban_duration,
+            local_node_id,
+            protocol_identity,
+            expected_responses.clone(),
+            recv_tx,
+            unused_exit_rx,
+        );
+
+        crate::verif::register_wire(crate::verif::VirtualWire {
+            node_id: local_node_id,
+            outbound,
+            recv: recv_handler,
+            expected_responses,
+            _exits: (sender_exit_rx, recv_exit_rx),
+        });
 
         Ok(Socket {
             send,
